@@ -18,7 +18,7 @@ package main
 //   gc  <authorId> <nAuthors>                   GetComments
 //   rt  <0/1 per run>                           GetCellRichText
 //   cf  <nFormula>                              GetConditionalFormats (cellIs rule)
-//   mc  <ref-hex> <col> <row>                   GetCellValue through mergeCellsParser
+//   mc  <ref-hex> <col> <row>                   GetCellValue through mergeCellsParser: the cell it redirects to (exact, C20's RefMulti)
 //   mm  <x1,y1,x2,y2;…>                         GetMergeCells: number of merged cells after the overlap normalisation
 //   ch  <len> <shift> <c1,c2,c3,c4>             Decrypt: compound file header check (directory-sector count varied)
 //   ag  <infoLen> <xmlOK> <nKE> <blockSize> <hashLen> <keyBits> <spin> <saltOK> <saltLen> <encOK> <encLen> <kdSaltOK> <pkgLen>   Decrypt (agile)
@@ -39,7 +39,7 @@ import (
 const c14NS = `xmlns="http://schemas.openxmlformats.org/spreadsheetml/2006/main"`
 
 var c14SiteBase struct {
-	plain, comment, cond, sheets4 []c14Part
+	plain, comment, cond, sheets4, grid []c14Part
 }
 
 func c14Parts(f *xl.File) []c14Part {
@@ -72,6 +72,14 @@ func c14SiteInit() {
 		must(err)
 	}
 	c14SiteBase.sheets4 = c14Parts(f)
+	f = xl.NewFile()
+	for col := 1; col <= 6; col++ {
+		for row := 1; row <= 6; row++ {
+			name, _ := xl.CoordinatesToCellName(col, row)
+			must(f.SetCellStr("Sheet1", name, name))
+		}
+	}
+	c14SiteBase.grid = c14Parts(f)
 }
 
 // c14Patch returns the package with one part replaced (or edited by fn).
@@ -354,13 +362,17 @@ func (c *c14Ctx) opMC(ref string, col, row int) {
 	if err != nil {
 		return
 	}
-	res := c14Open(c14WithMerges([]string{ref}), func(f *xl.File) string {
+	mc := `<mergeCells count="1"><mergeCell ref="` + c14XMLEsc(ref) + `"/></mergeCells>`
+	data := c14Patch(c14SiteBase.grid, "xl/worksheets/sheet1.xml", func(old string) string {
+		return strings.Replace(old, "</sheetData>", "</sheetData>"+mc, 1)
+	})
+	res := c14Open(data, func(f *xl.File) string {
+		// every cell of A1:F6 holds its own name: the value read names the cell mergeCellsParser redirected to
 		v, err := f.GetCellValue("Sheet1", cell)
 		if err != nil {
 			return "ERR"
 		}
-		_ = v // whether the cell was redirected is not observable for the anchor cell itself: outcome class only
-		return "ok"
+		return "ok " + hx(v)
 	})
 	c.site(fmt.Sprintf("mc %s %d %d", hx(ref), col, row), res, "panic:cellInRange:index", "mergeCellsParser / cellInRange index a rectangle out of range")
 }
